@@ -1,4 +1,5 @@
 import Mitx.Lemmas.Tree
+import Mitx.Lemmas.TreeShape
 import Mitx.Props.C17
 /-! # C01 — range and `ok` consistency for every grader tree, through the whole call
 
@@ -159,6 +160,41 @@ theorem item_tree_call_good (pin : Bool) (t : ITree) (ht : t.TabsWF) {ans : List
     simp only [hc, Except.map, Except.ok.injEq] at hr; subst hr
     exact item_tree_good pin t ht ha hc
 
+/-- **One entry per submitted input, none missing** — for every validly configured list grader tree (accepted grouping with one
+    answer per group, recursively for nested graders), ordered or unordered, at every nesting level. -/
+theorem list_tree_one_entry_per_input (t : LTree) {answers : List (List UAny)} {student : List String} {out : LOut}
+    (hok : ListOK t answers) (hne : student ≠ []) (h : t.check answers student = .ok out) :
+    out.entries.length = student.length ∧ ∀ e ∈ out.entries, e.isSome = true :=
+  LTree.check_full t answers student out hok hne h
+
+/-- hence the shape clause of a whole call holds unconditionally for such trees: list form, one entry per input -/
+theorem list_tree_call_shape (t : LTree) {answers : List (List UAny)} {student : List String} (hok : ListOK t answers)
+    (hne : student ≠ []) {cfg : CallCfg} {att : Option ℤ} {log : String} {out : At.Out}
+    (h : call cfg att log (.many student) ((t.check answers student).map CheckOut.list) = .ok out) :
+    isSingle out = false ∧ out.entries.length = student.length := by
+  obtain ⟨r, hr, hs⟩ := call_shape h
+  cases hc : t.check answers student with
+  | error e => simp [hc, Except.map] at hr
+  | ok o =>
+    simp only [hc, Except.map, Except.ok.injEq] at hr; subst hr
+    obtain ⟨f1, _⟩ := LTree.check_full t answers student o hok hne hc
+    exact ⟨hs.1, by rw [hs.2.1, f1]⟩
+
+/-- and, with debug off, every error that leaves the call of such a tree belongs to the library's family (C02): the
+    "an entry for every input" premise of `call_escape_classes` is discharged by the tree theorem -/
+theorem list_tree_escape_classes (t : LTree) {answers : List (List UAny)} {student : List String} (hok : ListOK t answers)
+    (hne : student ≠ []) {cfg : CallCfg} (hd : cfg.debug = false) {att : Option ℤ} {log : String} {e : Gr.Err}
+    (h : call cfg att log (.many student) ((t.check answers student).map CheckOut.list) = .error e) :
+    ∃ cls msg, e = .mitx cls msg := by
+  apply call_escape_classes hd _ h
+  intro o ho
+  cases hc : t.check answers student with
+  | error e' => simp [hc, Except.map] at ho
+  | ok o' =>
+    simp only [hc, Except.map, Except.ok.injEq, CheckOut.list.injEq] at ho; subst ho
+    have := (LTree.check_full t answers student o' hok hne hc).2
+    exact List.all_eq_true.mpr this
+
 /-- a schedule with values in [0,1] for attempts ≥ 1 yields applied credits in [0,1] (rounding to four decimals is monotone and
     fixes 0 and 1); the three built-in schedules qualify by C17's range theorems -/
 theorem creditOf_range {s : ℤ → ℚ} (h : ∀ a : ℤ, 1 ≤ a → 0 ≤ s a ∧ s a ≤ 1) (n : ℤ) :
@@ -213,4 +249,34 @@ example : AnyWF false exAns := by
 example : (exList.check [[exAns, exAns]] ["b,a", "a,a"]).toOption.map (fun o => o.entries.map (fun e => e.map (fun r => (r.ok, r.grade))))
     = some [some (.yes, 1), some (.part, 1/2)] := by decide +kernel
 
+/-! non-vacuity for the shape theorem: an unordered grouped ListGrader over a nested ordered ListGrader (grouping `[1,2,1,2]`) -/
+def exInner : LTree := .list ⟨true, true, []⟩ [.item exLeaf]
+def exOuter : LTree := .list ⟨false, true, [1, 2, 1, 2]⟩ [.nested exInner]
+def exItemA : UAny := .item [⟨[.str "a"], ⟨1, "", .yes⟩⟩]
+def exItemB : UAny := .item [⟨[.str "b"], ⟨1, "", .yes⟩⟩]
+def exOuterAns : List (List UAny) := [[.lists [[exItemA, exItemB]], .lists [[exItemB, exItemB]]]]
+
+example : ListOK exOuter exOuterAns := by
+  refine .mk _ _ _ ?_ ?_
+  · intro al hal
+    simp only [exOuterAns, List.mem_singleton] at hal; subst hal
+    exact Or.inr ⟨[[0, 2], [1, 3]], by decide, rfl⟩
+  · intro al hal k a hcond s hs
+    simp only [exOuterAns, List.mem_singleton] at hal; subst hal
+    simp only [Bool.false_eq_true, ↓reduceIte] at hcond
+    obtain ⟨rfl, ha⟩ := hcond
+    simp only [subFor, List.length_singleton, beq_self_eq_true, ↓reduceIte, List.getElem?_cons_zero, Option.some.injEq] at hs
+    subst hs
+    have inner : ∀ ls, ListOK exInner ls := by
+      intro ls
+      refine .mk _ _ _ (fun _ _ => Or.inl rfl) ?_
+      intro al _ k a _ s hs
+      simp only [subFor, List.length_singleton, beq_self_eq_true, ↓reduceIte, List.getElem?_cons_zero, Option.some.injEq] at hs
+      subst hs; exact .item _ _
+    simp only [List.mem_cons, List.mem_nil_iff, or_false] at ha
+    rcases ha with rfl | rfl <;> exact .nested _ _ (inner _)
+
+
+example : (exOuter.check exOuterAns ["b", "a", "b", "b"]).toOption.map (fun o => o.entries.map (fun e => e.map (fun r => r.grade)))
+    = some [some 1, some 1, some 1, some 1] := by decide +kernel
 end C01
